@@ -911,6 +911,18 @@ def main(run):
                     pass
         n_e2e = n_main = 0
         if wanted(run, "e2e"):
+            if casc is not None and ma is None:
+                # the exit-code arithmetic of _main could not be extracted: the process-level scenarios are still judged,
+                # against the SPECIFIED arithmetic (a test that did not run counts as failed)
+                pre = {t: z3.Int(t) for t in CC.TOTALS}
+                per = {"num_found": z3.Int("num_found"), "n_results": z3.Int("len(test_results)"), "num_passed": z3.Int("num_passed")}
+                ma = CC.MainArith(
+                    init={t: z3.IntVal(0) for t in CC.TOTALS},
+                    step={"total_found": pre["total_found"] + per["num_found"], "total_passed": pre["total_passed"] + per["num_passed"],
+                          "total_failed": pre["total_failed"] + (per["num_found"] - per["num_passed"])},
+                    pre=pre, per=per, exit_term=z3.If(pre["total_failed"] == 0, z3.IntVal(0), z3.IntVal(1)), zero_found_exit=1,
+                    notes=["specification fallback (extraction failed)"], source="spec")
+                run.extra["main_arith_source"] = "specification fallback: _main's arithmetic was not recognised by the extractor"
             if casc is None or ma is None:
                 run.inconc("e2e-run_test", "all", "no extracted function to compare with (Route A inconclusive)")
             else:
